@@ -218,6 +218,22 @@ def run(ctx):
     # whole list over; nothing else reorders, clears or rebuilds them (a rebuild from a name-sorted map loses the order)
     for cls, fld, creators in ((NS + "parser", NS + "parser::group_order_", ("group",)), (NS + "group", NS + "group::order_", ("option", "multi_option", "toggle"))):
         nwr = 0
+        # a private helper that only the creating functions call appends on their behalf ("extract method")
+        helpers = set()
+        changed = True
+        while changed:
+            changed = False
+            for f in prog.methods_of(cls):
+                if f.name in creators or f.name in helpers or not f.has_cfg:
+                    continue
+                cs = [prog.fn(c0) for c0 in cg.callers(f.id)]
+                cs += [prog.fn(c0) for g in prog.methods_of(cls) if strip_t(g.qual) == strip_t(f.qual) and g.id != f.id for c0 in cg.callers(g.id)]
+                # calls that A0 has already spliced into their callers
+                cs += [prog.fn(l0[0]) for l0 in (prog.inline_log or []) if len(l0) == 3 and l0[2] in ("statement", "expression") and strip_t(str(l0[1]).split("(")[0]) == strip_t(f.qual)]
+                cs = [c0 for c0 in cs if c0 is not None]
+                if cs and all(c0.cls == cls and (c0.name in creators or c0.name in helpers) for c0 in cs):
+                    helpers.add(f.name)
+                    changed = True
         for f in prog.methods_of(cls):
             if not f.has_cfg:
                 continue
@@ -227,7 +243,7 @@ def run(ctx):
                 nwr += 1
                 txt = fmt(n2.get("expr")) if how == "init" and isinstance(n2, dict) and "expr" in n2 else fmt(n2)
                 moved = re.search(r"move\(\w+\.%s\)" % re.escape(short(fld)), txt) is not None or re.search(r"swap\(.*%s" % re.escape(short(fld)), txt) is not None
-                if f.name in creators and re.search(r"\.(push_back|emplace_back)\(", txt):
+                if (f.name in creators or f.name in helpers) and re.search(r"\.(push_back|emplace_back)\(", txt):
                     continue
                 if (f.kind == "ctor" and (f.flags.get("move_ctor") or f.flags.get("copy_ctor"))) or f.flags.get("move_assign") or f.flags.get("copy_assign"):
                     if moved or re.fullmatch(r"\(?%s = \w+\.%s\)?" % (re.escape(short(fld)), re.escape(short(fld))), txt) or (how == "init" and re.fullmatch(r"\(?\w+\.%s\)?" % re.escape(short(fld)), txt)):
@@ -353,31 +369,39 @@ def run(ctx):
                                         brk = True
                             if brk:
                                 continue
-                            nb += 1
-                            lits, unknown = [], []
+                            # the path condition in disjunctive normal form over half-space literals (a branch condition may be a
+                            # whole `a || b` when the test sits in a helper / closure that A0 has inlined as an expression)
+                            terms = [[]]
                             for (pb, lab) in path:
                                 c = fp.term(pb).get("cond")
                                 if c is None or lab not in ("true", "false"):
                                     continue
-                                c = ir.unwrap(c)
-                                pol = lab == "true"
-                                while isinstance(c, dict) and c.get("k") == "un" and c.get("op") == "!":
-                                    c, pol = ir.unwrap(c["e"]), not pol
-                                hs = linear.halfspace(c)
-                                if hs is None:
-                                    unknown.append(fmt(c))
-                                else:
-                                    lits.append(hs if pol else linear.neg(hs))
-                            good = [x for x in lits if linear.implies(x, fits) or linear.implies(x, forced)]
+                                alts = _dnf(c, lab == "true", linear)
+                                terms = [t0 + a for t0 in terms for a in alts][:64]
                             construct = "no-break-only-if-fits-or-forced@%s:B%s" % (_rel(fp, e), "-".join(str(pb) for pb, _ in path))
-                            if good:
-                                ctx.ok("R15.5", fp, construct, linear.show(good[0]), (fp, e.get("ln")))
-                            elif unknown:
-                                ctx.broken("R15.5", fp, construct, "the word is written without a line break under conditions that are not linear comparisons (%s): idiom not recognised" % unknown, (fp, e.get("ln")))
-                            else:
+                            nb += len(terms)
+                            verdicts = []
+                            for t0 in terms:
+                                hs = [x for x in t0 if not isinstance(x, str)]
+                                if any(linear.implies(x, fits) or linear.implies(x, forced) for x in hs):
+                                    verdicts.append(("ok", t0))
+                                elif _contradictory(hs, linear):
+                                    verdicts.append(("ok", t0))
+                                elif any(isinstance(x, str) for x in t0):
+                                    verdicts.append(("unknown", t0))
+                                else:
+                                    verdicts.append(("bad", t0))
+                            show = lambda t0: " && ".join(x if isinstance(x, str) else linear.show(x) for x in t0) or "nothing"
+                            badv = [t0 for v, t0 in verdicts if v == "bad"]
+                            unk = [t0 for v, t0 in verdicts if v == "unknown"]
+                            if badv:
                                 ctx.bad("R15.5", fp, construct, "the word is written at line %s without a line break although nothing on that path says that it fits into what is left (%s + 1 <= %s) or that it "
                                         "would not fit on a line of its own (%s + 1 > %s - %s) [path knows: %s]: a word that exactly fills a fresh line is appended to the current one, which then "
-                                        "exceeds the width although no single word forces it" % (e.get("ln"), L, bud, L, width, pad, "; ".join(linear.show(x) for x in lits) or "nothing"), (fp, e.get("ln")))
+                                        "exceeds the width although no single word forces it" % (e.get("ln"), L, bud, L, width, pad, show(badv[0])), (fp, e.get("ln")))
+                            elif unk:
+                                ctx.broken("R15.5", fp, construct, "the word is written without a line break under conditions that are not linear comparisons (%s): idiom not recognised" % show(unk[0]), (fp, e.get("ln")))
+                            else:
+                                ctx.ok("R15.5", fp, construct, "; ".join(show(t0) for _, t0 in verdicts)[:200], (fp, e.get("ln")))
             ctx.need("R15.5", "no-break paths in the word loop", nb, 2)
     # ---- R15.6: the layout is a function of the declarations alone - fixed width, nothing read from the process environment
     ctx.rule("R15.6", "every call of the wrapping routine on the usage path passes a constant width of at most 80; nothing reachable from usage() reads the environment")
@@ -489,7 +513,37 @@ def run(ctx):
                       "%s::format_default() returns no hint although a default is declared (%s): the option section does not show that default, the option reads as a required one"
                       % (k, " && ".join(logic.show(c) for c in conds[1:])[:200]), fd, why_ok="the empty result needs !has_default()")
         ctx.need("R15.4", "hint-less paths of %s::format_default" % k, npth, 1)
-    ctx.assume("the 80-column bound, word wrapping and 'no word lost' are string arithmetic on runtime text: not decided")
+    ctx.assume("the 80-column bound, word wrapping and 'no word lost' are string arithmetic on runtime text: not decided beyond the necessary conditions R15.5 (a)-(d)")
+
+
+def _dnf(c, pol, linear):
+    """condition c with polarity pol as a list of conjunctions; a literal is a half-space or the text of an opaque condition"""
+    c = ir.unwrap(c)
+    while isinstance(c, dict) and c.get("k") == "cast":
+        c = ir.unwrap(c["e"])
+    if isinstance(c, dict) and c.get("k") == "un" and c.get("op") == "!":
+        return _dnf(c["e"], not pol, linear)
+    if isinstance(c, dict) and c.get("k") == "bin" and c.get("op") in ("&&", "||"):
+        a, b = _dnf(c["l"], pol, linear), _dnf(c["r"], pol, linear)
+        conj = (c["op"] == "&&") == pol
+        return ([x + y for x in a for y in b] if conj else a + b)[:64]
+    hs = linear.halfspace(c)
+    if hs is None:
+        return [[("!" if not pol else "") + fmt(c)]]
+    return [[hs if pol else linear.neg(hs)]]
+
+
+def _contradictory(hs, linear):
+    """two half-spaces of one conjunction exclude each other (d <= c1 and -d <= c2 with c1 + c2 < 0)"""
+    for x in hs:
+        for y in hs:
+            if x is not y and linear.implies(x, linear.neg(y)):
+                return True
+    return False
+
+
+def strip_t(q):
+    return re.sub(r"<[^<>]*>", "", q or "")
 
 
 def literal_value_(x):
